@@ -22,13 +22,36 @@ class Obl:
                 'detail': self.detail, 'backend': self.backend, 'model': self.model}
 
 
+class Heap(dict):
+    """heap cells; a row view (ref.meta['parent'] = (rows ref, index term)) reads and writes through its parent"""
+    def __getitem__(self, r):
+        par = r.meta.get('parent') if isinstance(r, Ref) else None
+        if par is not None:
+            pc = dict.__getitem__(self, par[0])
+            return {'len': pc['ncols'], 'arr': z3.Select(pc['rows'], par[1]), 'ek': 'real'}
+        return dict.__getitem__(self, r)
+
+    def __setitem__(self, r, cell):
+        par = r.meta.get('parent') if isinstance(r, Ref) else None
+        if par is not None:
+            pc = dict(dict.__getitem__(self, par[0]))
+            arr = cell['arr']
+            if cell.get('ek') == 'int':
+                k = z3.Int('k!rw')
+                arr = z3.Lambda([k], z3.ToReal(z3.Select(arr, k)))
+            pc['rows'] = z3.Store(pc['rows'], par[1], arr)
+            dict.__setitem__(self, par[0], pc)
+            return
+        dict.__setitem__(self, r, cell)
+
+
 class State:
     def __init__(self, prefix, timeout_ms=10000, symbols=None):
         self.solver = z3.Solver()
         self.solver.set('timeout', timeout_ms)
         self.timeout_ms = timeout_ms
         self.pc = []
-        self.heap = {}
+        self.heap = Heap()
         self.prefix = list(prefix)
         self.decisions = []
         self.alternatives = []        # decision lists still to explore
@@ -76,6 +99,8 @@ class State:
         return r
 
     def note_write(self, ref, field=None):
+        if ref.meta.get('parent') is not None:
+            ref = ref.meta['parent'][0]
         for fr in self.frames:
             if ref.meta.get('birth', 0) > fr['stamp']:
                 continue
